@@ -83,6 +83,16 @@ pub fn ring(n: usize, mut idx: u64) -> LargeAdf {
     LargeAdf { written: labels.clone(), labels, conds, shape: "ring" }
 }
 
+/// k self-supporting statements (2^k two-valued models, one stable model) and one statement that follows two of them:
+/// an input with MANY models (more than any buffer of 256 holds for k = 9)
+pub fn selfsup(k: usize) -> LargeAdf {
+    let mut labels: Vec<String> = (0..k).map(|i| format!("m{}", i)).collect();
+    let mut conds: Vec<Fm> = (0..k).map(Fm::Atom).collect();
+    labels.push("z".into());
+    conds.push(Fm::bin(1, Fm::Atom(0), Fm::not(Fm::Atom(k - 1))));
+    LargeAdf { written: labels.clone(), labels, conds, shape: "self-supporting" }
+}
+
 /// the semantics of an ADF given by formulas, from the definitions
 pub struct Oracle {
     pub n: usize,
